@@ -22,7 +22,7 @@ META = {
                   "f(task) / stored — holds initially, is preserved by every step, and gives results = map f tasks on return, for all schedules, all worker "
                   "counts >= 1, all batch sizes, any number of consecutive batches on one pool) and mpi_progress (no reachable non-final state is stuck; a measure "
                   "strictly decreases at every step so every schedule is finite and every maximal one ends with map returned) — BOTH branches proved in full, no "
-                  "_partial; evaluate_all pairing (pairing_keeps_variables) and experiment() filing (experiment_filing). Tie to /repo on every run: the REAL MPIPool "
+                  "_partial; evaluate_all pairing (pairing_keeps_variables) and experiment() filing (experiment_filing; experiment_filing_decl: with algorithms declared as bare type / (type,) / (type, kwargs) / (type, kwargs, name), the entries under a declaration's name are the replicates of ITS type with ITS kwargs, the default {} being re-established per declaration). Tie to /repo on every run: the REAL MPIPool "
                   "runs on a simulated mpi4py whose delivery order is an explicit schedule (random, and enumerated: all interleavings for small worker/task counts, one "
                   "per Mazurkiewicz trace beyond), every logged event trace is validated in Coq (vm_compute) by the proved transition system and its results compared "
                   "with the returned list; real thread/process pools and scripted futures with adversarial completion orders for every chunk size; _chunks, evaluate_all "
@@ -49,9 +49,16 @@ def opt_z(x):
 # =====================================================================================================
 # 1. _chunks
 # =====================================================================================================
+def form_of(as_iter):
+    """old replays carry a bool"""
+    if isinstance(as_iter, str):
+        return as_iter
+    return "iter" if as_iter else "list"
+
+
 def impl_chunks(n, items, as_iter):
     from platypus.evaluator import _chunks
-    return [list(c) for c in _chunks(iter(items) if as_iter else list(items), n)]
+    return [list(c) for c in _chunks(JB.shape(form_of(as_iter), items), n)]
 
 
 def oracle_chunks(ctx, n, items, out, as_iter):
@@ -72,11 +79,11 @@ def part_chunks(ctx):
     cases = []
     for n in range(-2, ctx.scale(9, 14)):
         for ln in range(0, ctx.scale(13, 30)):
-            cases.append((n, [rng.randrange(-9, 100) for _ in range(ln)], (n + ln) % 2 == 0))
+            cases.append((n, [rng.randrange(-9, 100) for _ in range(ln)], JB.FORMS[(n + ln) % len(JB.FORMS)]))
     for _ in range(ctx.scale(150, 3000)):
         ln = rng.randrange(0, 40)
         n = rng.choice([rng.randrange(-3, 45), ln, ln + 1, max(1, ln - 1), 1])
-        cases.append((n, [rng.randrange(-1000, 1000) for _ in range(ln)], rng.random() < 0.5))
+        cases.append((n, [rng.randrange(-1000, 1000) for _ in range(ln)], rng.choice(JB.FORMS)))
     lits = []
     for (n, items, as_iter) in cases:
         out = impl_chunks(n, items, as_iter)
@@ -159,8 +166,9 @@ def make_evaluator(name, n, order, nthreads, pools):
     raise ValueError(name)
 
 
-def run_evaluator_case(name, xs, lf, order, nthreads, pools, token):
+def run_evaluator_case(name, xs, lf, order, nthreads, pools, token, form="list", job_name=None):
     """Evaluate jobs xs through the named evaluator; delays make job order[0] finish first, order[-1] last.
+    The batch is handed over in the iterable form `form` (list, tuple, iterator, generator, custom one-shot).
     Returns (jobs, results, observed completion order as indices)."""
     n = len(xs)
     rank = {i: k for k, i in enumerate(order)}
@@ -171,7 +179,9 @@ def run_evaluator_case(name, xs, lf, order, nthreads, pools, token):
     ev, cleanup = make_evaluator(name, n, order, nthreads, pools)
     try:
         kw = {} if lf is None else {"log_frequency": lf}
-        results = ev.evaluate_all(jobs, **kw)
+        if job_name is not None:
+            kw["job_name"] = job_name
+        results = ev.evaluate_all(JB.shape(form, jobs), **kw)
     finally:
         cleanup()
     results = list(results)
@@ -184,11 +194,17 @@ def run_evaluator_case(name, xs, lf, order, nthreads, pools, token):
     return jobs, results, comp
 
 
-def oracle_evaluator(ctx, name, xs, lf, order, nthreads, jobs, results):
-    rp = {"kind": "evaluator", "evaluator": name, "xs": list(xs), "log_frequency": lf, "order": list(order), "nthreads": nthreads}
+def oracle_evaluator(ctx, name, xs, lf, order, nthreads, jobs, results, form="list", job_name=None):
+    rp = {"kind": "evaluator", "evaluator": name, "xs": list(xs), "log_frequency": lf, "order": list(order), "nthreads": nthreads,
+          "form": form, "job_name": job_name}
     got = [getattr(r, "x", None) for r in results]
     if len(results) != len(xs):
-        ctx.violation("evaluator-result-count:" + name, "%s returned %d results for %d jobs (log_frequency=%r)" % (name, len(results), len(xs), lf), rp)
+        ctx.violation("evaluator-result-count:" + name, "%s returned %d results (jobs %r) for the %d jobs %r passed as a %s (log_frequency=%r, job_name=%r)" % (
+            name, len(results), got, len(xs), list(xs), form, lf, job_name), rp)
+        return False
+    if name in SAME_PROCESS and any(j.runs != 1 for j in jobs):
+        ctx.violation("evaluator-job-not-run-exactly-once:" + name, "%s ran the jobs %r times (batch passed as a %s, log_frequency=%r, job_name=%r)" % (
+            name, [j.runs for j in jobs], form, lf, job_name), rp)
         return False
     if got != list(xs):
         ctx.violation("evaluator-results-out-of-job-order:" + name,
@@ -236,6 +252,20 @@ def evaluator_plan(ctx):
         for lf in ctx.scale([None, 2], [None, 1, 2, 3, n + 1]):
             for name in pnames:
                 plan.append((name, n, lf, list(reversed(range(n))), 2))
+    # every evaluator x every iterable form the API accepts x with/without log_frequency x with/without job_name
+    allnames = ("map-serial", "map-executor", "pool-threadpool", "submit-threads", "apply-threads", "submit-scripted", "apply-scripted",
+                "processpool", "multiprocessing")
+    plan = [e + (rng.choice(JB.FORMS), rng.choice([None, None, "named"])) for e in plan]
+    for name in allnames:
+        proc = name in ("processpool", "multiprocessing")
+        for n in ctx.scale((1, 3), (0, 1, 2, 3, 5)):
+            for lf in ctx.scale((None, 2), (None, 1, 2, n + 1)):
+                for form in JB.FORMS:
+                    for jn in (None, "named"):
+                        if proc and not ctx.thorough and (jn is not None and lf is None):
+                            continue
+                        order = list(reversed(range(n)))
+                        plan.append((name, n, lf, order, 2 if proc else n + 1, form, jn))
     return plan
 
 
@@ -245,18 +275,20 @@ def part_evaluators(ctx, pools):
     dist = {}
     reordered = 0
     t0 = time.time()
-    for k, (name, n, lf, order, nthreads) in enumerate(evaluator_plan(ctx)):
+    forms = {}
+    for k, (name, n, lf, order, nthreads, form, jn) in enumerate(evaluator_plan(ctx)):
         xs = rng.sample(range(1, 500), n)
         token = ("ev", k)
         try:
-            jobs, results, comp = run_evaluator_case(name, xs, lf, order, nthreads, pools, token)
+            jobs, results, comp = run_evaluator_case(name, xs, lf, order, nthreads, pools, token, form, jn)
         except Exception as e:  # an evaluator that raises on a legal batch fails "one result per job"
-            ctx.violation("evaluator-raised:" + name, "%s raised %r on %d jobs, log_frequency=%r, order %r" % (name, e, n, lf, order),
-                          {"kind": "evaluator", "evaluator": name, "xs": xs, "log_frequency": lf, "order": order, "nthreads": nthreads})
+            ctx.violation("evaluator-raised:" + name, "%s raised %r on %d jobs passed as a %s, log_frequency=%r, job_name=%r, order %r" % (name, e, n, form, lf, jn, order),
+                          {"kind": "evaluator", "evaluator": name, "xs": xs, "log_frequency": lf, "order": order, "nthreads": nthreads, "form": form, "job_name": jn})
             continue
         ctx.count()
         dist[name] = dist.get(name, 0) + 1
-        ok = oracle_evaluator(ctx, name, xs, lf, order, nthreads, jobs, results)
+        forms[form] = forms.get(form, 0) + 1
+        ok = oracle_evaluator(ctx, name, xs, lf, order, nthreads, jobs, results, form, jn)
         if comp != sorted(comp):
             reordered += 1
             ctx.mark(("evaluator", name, n, repr(lf), tuple(comp)))
@@ -273,6 +305,7 @@ def part_evaluators(ctx, pools):
         ctx.obligation("correspondence:evaluators(%d cases)" % len(lits), "correspondence", not bad,
                        "model and implementation differ on %r; first: %s" % (bad[:10], lits[bad[0]] if bad else ""))
     ctx.coverage["evaluator_cases"] = dist
+    ctx.coverage["evaluator_batch_forms"] = forms
     ctx.coverage["evaluator_cases_with_out_of_order_completion"] = reordered
     ctx.coverage["evaluators_s"] = round(time.time() - t0, 1)
 
@@ -535,15 +568,16 @@ def part_mpi(ctx):
         lf = rng.choice([None, None, 1, 2, 3, W, W + 1])
         xs = rng.sample(range(1, 300), rng.choice([0, 1, W, W + 2, 5]))
         ch = M.Chooser(rng=rng)
-        rp = {"kind": "mpi-platypus", "W": W, "lb": lb, "vs": vs, "pre": pre, "xs": xs, "log_frequency": lf}
+        form = rng.choice(JB.FORMS) if (lf is not None and lf > 0) else "list"     # unchunked, MPIPool.map needs len(tasks)
+        rp = {"kind": "mpi-platypus", "W": W, "lb": lb, "vs": vs, "pre": pre, "xs": xs, "log_frequency": lf, "form": form}
         holder = {}
 
-        def body(pool, vs=vs, pre=pre, lf=lf, xs=xs, holder=holder, rp=rp):
+        def body(pool, vs=vs, pre=pre, lf=lf, xs=xs, holder=holder, rp=rp, form=form):
             ev = PoolEvaluator(pool)
             pairing_case(ctx, "pool-mpi", ev, vs, pre, False, rp, plits)
             jobs = [JB.DelayJob(x) for x in xs]
             kw = {} if lf is None else {"log_frequency": lf}
-            holder["jobs"] = list(ev.evaluate_all(jobs, **kw))
+            holder["jobs"] = list(ev.evaluate_all(JB.shape(form, jobs), **kw))
 
         def key(o):
             return ("job", o.x) if isinstance(o, JB.DelayJob) else ("sol", tuple(o.solution.variables))
@@ -588,15 +622,42 @@ def part_mpi(ctx):
 # =====================================================================================================
 # 5. experiment()
 # =====================================================================================================
-ALG_IDS = {"TagAlg": 1, "TagAlg2": 2, "TagNSGAII": 3, "renamed": 4}
+TYPE_IDS = {"TagAlg": 1, "TagAlg2": 2, "TagNSGAII": 3}                 # an algorithm type and its __name__ share the id
+NAME_IDS = dict(TYPE_IDS, **{"renamed": 4, "N-default": 5, "T2": 6, "T3": 7, "N6": 8})
 PROB_IDS = {"ProbA": 1, "ProbB": 2, "second": 3}
 
 
-def result_id(tag):
-    return 100 * ALG_IDS[tag[0]] + 10 * PROB_IDS[tag[1]] + tag[2]
+def decl_parts(a):
+    """(type, declared kwargs or None, declared name or None, form) of one algorithm declaration"""
+    if isinstance(a, tuple):
+        return a[0], (a[1] if len(a) >= 2 else None), (a[2] if len(a) >= 3 else None), len(a)
+    return a, None, None, 0
 
 
-def experiment_case(ctx, evname, evaluator, algs, probs, seeds, lits, rp):
+def decl_name(a):
+    t, _kw, nm, _f = decl_parts(a)
+    return nm if nm is not None else t.__name__
+
+
+def decl_config(a):
+    """the configuration value the declaration asks for (the class default when it carries no kwargs)"""
+    t, kw, _nm, _f = decl_parts(a)
+    return next(iter(kw.values())) if kw else t.default_config
+
+
+def decl_lit(a):
+    t, kw, nm, form = decl_parts(a)
+    kwid = next(iter(kw.values())) if kw else 0
+    if form == 0:
+        return "dB %d" % TYPE_IDS[t.label]
+    if form == 1:
+        return "dT1 %d" % TYPE_IDS[t.label]
+    if form == 2:
+        return "dT2 %d %d" % (TYPE_IDS[t.label], kwid)
+    return "dT3 %d %d %d" % (TYPE_IDS[t.label], kwid, NAME_IDS[nm])
+
+
+def experiment_case(ctx, evname, evaluator, algs, probs, seeds, lits, dlits, rp):
     from platypus import experiment
     JB.reset_construction_counter()
     rec = Recorder(evaluator)
@@ -607,9 +668,6 @@ def experiment_case(ctx, evname, evaluator, algs, probs, seeds, lits, rp):
         return
     ctx.count()
 
-    def aname(a):
-        return a[2] if isinstance(a, tuple) and len(a) >= 3 else (a[0] if isinstance(a, tuple) else a).__name__
-
     def pname(p):
         if isinstance(p, tuple):
             return p[1] if len(p) >= 2 else p[0].__name__
@@ -619,20 +677,25 @@ def experiment_case(ctx, evname, evaluator, algs, probs, seeds, lits, rp):
         q = p[0] if isinstance(p, tuple) else p
         return q.__name__ if isinstance(q, type) else q.__class__.__name__
 
-    def alabel(a):
-        return (a[0] if isinstance(a, tuple) else a).label
-    # correspondence: the jobs as the evaluator returned them, and the nested dict
-    anames = [aname(a) for a in algs]
+    anames = [decl_name(a) for a in algs]
     pnames = [pname(p) for p in probs]
-    aid = {aname(a): ALG_IDS.get(aname(a), 9) for a in algs}
-    pid = {pname(p): PROB_IDS.get(pname(p), 9) for p in probs}
+    aid = {n: NAME_IDS.get(n, 99) for n in anames}
+    pid = {n: PROB_IDS.get(n, 9) for n in pnames}
+    cls2pid = {pclass(p): pid[pname(p)] for p in probs}
+
+    def rid(tag):
+        """what a result reveals about its producer: type, effective configuration, problem, replicate"""
+        return 100000 * TYPE_IDS[tag[0]] + 1000 * tag[3] + 100 * cls2pid[tag[1]] + tag[2]
+    # correspondence: (1) declarations -> the jobs the evaluator handed back; (2) those jobs -> the nested dict
     try:
-        jl = ["mkJ %d %d %d" % (aid[j.algorithm_name], pid[j.problem_name], result_id(j.instance.result.tag)) for j in rec.returned]
-        tl = ["mkA %d %s" % (aid[a], C.list_lit(["mkP %d %s" % (pid[p], zl([result_id(e.tag) for e in res[a][p]])) for p in res[a]])) for a in res]
+        jl = ["mkJ %d %d %d" % (aid[j.algorithm_name], pid[j.problem_name], rid(j.instance.result.tag)) for j in rec.returned]
+        tl = ["mkA %d %s" % (aid[a], C.list_lit(["mkP %d %s" % (pid[p], zl([rid(e.tag) for e in res[a][p]])) for p in res[a]])) for a in res]
         lits.append("FL %s %s" % (C.list_lit(jl), C.list_lit(tl)))
-    except (KeyError, AttributeError):
+        dlits.append("FD %s %s %d %s" % (C.list_lit([decl_lit(a) for a in algs]), zl([pid[n] for n in pnames]), seeds, C.list_lit(jl)))
+    except (KeyError, AttributeError, TypeError):
         pass        # an unrecognisable structure: the oracle below reports it
-    # oracle: results[alg][prob] = the results of replicates 0..seeds-1 of THAT algorithm on THAT problem, in order
+    # oracle: results[name][prob] = the replicates 0..seeds-1, in order, each produced by exactly the declared
+    # (algorithm type, kwargs, problem)
     okay = sorted(res.keys()) == sorted(anames) and all(sorted(res[a].keys()) == sorted(pnames) for a in res)   # key ORDER is not part of the property
     if not okay:
         ctx.violation("experiment-misfiled", "experiment() under %s has keys %r, expected algorithms %r x problems %r" % (
@@ -640,43 +703,59 @@ def experiment_case(ctx, evname, evaluator, algs, probs, seeds, lits, rp):
         return
     for a in algs:
         for p in probs:
-            entries = res[aname(a)][pname(p)]
+            entries = res[decl_name(a)][pname(p)]
             tags = [getattr(e, "tag", None) for e in entries]
-            want = [(alabel(a), pclass(p), k) for k in range(seeds)]
+            want = [(decl_parts(a)[0].label, pclass(p), k, decl_config(a)) for k in range(seeds)]
             if tags != want:
                 ctx.violation("experiment-misfiled",
-                              "experiment() under %s: results[%r][%r] holds the results of %r, expected the %d replicates %r in seed order" % (
-                                  evname, aname(a), pname(p), tags, seeds, want), rp)
+                              "experiment() under %s with algorithms declared as %s: results[%r][%r] holds the results of (type, problem, replicate, configuration) %r, "
+                              "expected the %d replicates %r of the declared algorithm/kwargs in seed order" % (
+                                  evname, rp.get("declarations"), decl_name(a), pname(p), tags, seeds, want), rp)
                 return
-    order = [result_id(j.instance.result.tag) for j in rec.returned]
     ctx.mark(("experiment", evname, tuple(anames), tuple(pnames), seeds))
-    return order
+
+
+def experiment_configs(ctx):
+    A, A2, N = JB.TagAlg, JB.TagAlg2, JB.TagNSGAII
+    configs = [
+        ([A, N], [JB.ProbA, JB.ProbB], 3),
+        ([(A, {"batch": 4}, "renamed"), A2], [JB.ProbA(), (JB.ProbB, "second")], 3),       # kwargs BEFORE a bare type
+        ([(N, {"population_size": 6}), (A,), A2], [JB.ProbA, JB.ProbB], 3),                # (type, kwargs) then (type,) then bare
+        ([A2, (A, {"batch": 3}), (N, {}, "N-default")], [(JB.ProbA, "second"), JB.ProbB], 2),
+    ]
+    if ctx.thorough:
+        configs += [([(A, {"batch": 2}, "T2"), (A, {"batch": 3}, "T3"), A], [JB.ProbB, JB.ProbA], 4),
+                    ([A], [JB.ProbA], 1),
+                    ([(N, {"population_size": 6}, "N6"), N, (A2, {"batch": 2})], [(JB.ProbA, "second"), JB.ProbB], 2),
+                    ([(A2,), (N,), (A, {"batch": 4})], [JB.ProbA], 3)]
+    return configs
+
+
+def describe_decls(algs):
+    return [(decl_parts(a)[0].__name__,) + tuple(x for x in decl_parts(a)[1:3] if x is not None) if isinstance(a, tuple) else a.__name__ for a in algs]
 
 
 def part_experiment(ctx, pools):
     rng = ctx.rng
     lits = []
+    dlits = []
     dist = {}
-    configs = [
-        ([JB.TagAlg, JB.TagNSGAII], [JB.ProbA, JB.ProbB], 3),
-        ([(JB.TagAlg, {}, "renamed"), JB.TagAlg2], [JB.ProbA(), (JB.ProbB, "second")], 3),
-    ]
-    if ctx.thorough:
-        configs += [([JB.TagAlg2, JB.TagAlg, JB.TagNSGAII], [JB.ProbB, JB.ProbA], 4), ([JB.TagAlg], [JB.ProbA], 1), ([JB.TagNSGAII, JB.TagAlg], [(JB.ProbA, "second"), JB.ProbB], 2)]
+    configs = experiment_configs(ctx)
     evnames = ["map-serial", "submit-scripted", "apply-scripted", "submit-threads", "apply-threads", "pool-threadpool", "map-executor", "processpool"]
     if ctx.thorough:
         evnames.append("multiprocessing")
     for ci, (algs, probs, seeds) in enumerate(configs):
         njobs = len(algs) * len(probs) * seeds
         for evname in evnames:
-            if evname in ("processpool", "multiprocessing") and ci > 0 and not ctx.thorough:
+            if not ctx.thorough and ((evname == "processpool" and ci not in (0, 1)) or (ci >= 2 and evname in ("apply-scripted", "apply-threads", "map-executor"))):
                 continue
             for lf in ([None] if not ctx.thorough else [None, 4]):
                 order = list(reversed(range(njobs)))
                 if evname.endswith("scripted") and ci % 2:
                     rng.shuffle(order)
                 ev, cleanup = make_evaluator(evname, njobs, order, njobs + 1, pools)
-                rp = {"kind": "experiment", "evaluator": evname, "config": ci, "order": order, "log_frequency": lf}
+                rp = {"kind": "experiment", "evaluator": evname, "config": ci, "order": order, "log_frequency": lf,
+                      "declarations": repr(describe_decls(algs))}
                 try:
                     inner = ev
                     if lf is not None:
@@ -686,17 +765,23 @@ def part_experiment(ctx, pools):
                         ev2 = WithLF()
                     else:
                         ev2 = ev
-                    experiment_case(ctx, evname, ev2, algs, probs, seeds, lits, rp)
+                    experiment_case(ctx, evname, ev2, algs, probs, seeds, lits, dlits, rp)
                 finally:
                     cleanup()
                 dist[evname] = dist.get(evname, 0) + 1
     if lits:
-        ctx.sample({"experiment_case": lits[0][:500]})
+        ctx.sample({"experiment_case": dlits[1][:400] if len(dlits) > 1 else lits[0][:400]})
     bad = C.run_coq_cases(ctx, "filing", ["Base.Num", "Model.Futures", "Harness.H12"], "c12file", "c12_file_check", lits)
     if bad is not None:
         ctx.obligation("correspondence:experiment_filing(%d cases)" % len(lits), "correspondence", not bad,
                        "model and implementation differ on %r; first: %s" % (bad[:10], lits[bad[0]][:900] if bad else ""))
+    bad = C.run_coq_cases(ctx, "decls", ["Base.Num", "Model.Futures", "Harness.H12"], "c12decl", "c12_decl_check", dlits)
+    if bad is not None:
+        ctx.obligation("correspondence:experiment_job_generation(%d cases)" % len(dlits), "correspondence", not bad,
+                       "the jobs the evaluator returned are not those the declarations generate in the model (type, kwargs, name, problem, replicate): %r; first: %s" % (
+                           bad[:10], dlits[bad[0]][:900] if bad else ""))
     ctx.coverage["experiment_cases"] = dist
+    ctx.coverage["experiment_declaration_lists"] = [repr(describe_decls(a)) for a, _, _ in configs]
 
 
 # =====================================================================================================
@@ -717,7 +802,7 @@ def run(ctx):
                 "futures pool x every log_frequency in {None,1,2,3,n,n+1,0,-1}, random permutations beyond, real thread/process pools with later-jobs-first delays, batch sizes "
                 "0,1,<workers,>workers; MPIPool on the simulated mpi4py: random schedules (1-6 workers, 1-3 consecutive batches, both branches, eager and scheduled sends) and "
                 "systematic enumeration (all interleavings of receive completions for small worker/task counts, sleep-set reduced — one per Mazurkiewicz trace — beyond; see coverage.mpi); "
-                "evaluate_all on batches with already-evaluated members under in-place and copying evaluators; experiment() 2x2x3 (and more in thorough) under 8-9 evaluators. "
+                "every evaluator x every iterable form of the batch (list, tuple, iterator, generator expression, custom one-shot iterable) x with/without log_frequency x with/without job_name; evaluate_all on batches with already-evaluated members under in-place and copying evaluators; experiment() with declaration lists mixing bare types, (type,), (type, kwargs), (type, kwargs, name) in different orders (algorithms whose result reveals type, constructor configuration, problem and replicate) under 8-9 evaluators. "
                 "non-trivial = a case in which completion/arrival order differs from job order (evaluators, MPI), several chunks plus a trailing partial chunk (_chunks), a batch of >= 2 "
                 "solutions with an unevaluated member (pairing), an experiment configuration; distinct by full input incl. the event trace")
     ctx.assumptions.append("the simulated mpi4py (buffered sends, per-pair FIFO, first-match receives) stands in for an MPI library; tasks do not raise")
@@ -738,9 +823,10 @@ def replay(ctx, data):
             name = rp["evaluator"]
             if name == "pool-mpi":
                 return run(ctx)
-            jobs, results, comp = run_evaluator_case(name, rp["xs"], rp["log_frequency"], rp["order"], rp["nthreads"], pools, ("replay", 0))
+            jobs, results, comp = run_evaluator_case(name, rp["xs"], rp["log_frequency"], rp["order"], rp["nthreads"], pools, ("replay", 0),
+                                                     rp.get("form", "list"), rp.get("job_name"))
             ctx.count()
-            oracle_evaluator(ctx, name, rp["xs"], rp["log_frequency"], rp["order"], rp["nthreads"], jobs, results)
+            oracle_evaluator(ctx, name, rp["xs"], rp["log_frequency"], rp["order"], rp["nthreads"], jobs, results, rp.get("form", "list"), rp.get("job_name"))
         elif kind == "pairing":
             nun = sum(1 for p in rp["pre"] if p is None)
             ev, cleanup = make_evaluator(rp["evaluator"], nun, rp["order"], max(2, nun + 1), pools)
@@ -767,7 +853,7 @@ def replay(ctx, data):
                 ev = PoolEvaluator(pool)
                 pairing_case(ctx, "pool-mpi", ev, rp["vs"], rp["pre"], False, rp, [])
                 kw = {} if rp["log_frequency"] is None else {"log_frequency": rp["log_frequency"]}
-                holder["jobs"] = list(ev.evaluate_all([JB.DelayJob(x) for x in rp["xs"]], **kw))
+                holder["jobs"] = list(ev.evaluate_all(JB.shape(rp.get("form", "list"), [JB.DelayJob(x) for x in rp["xs"]]), **kw))
             out = M.run_session(rp["W"], rp["lb"], [], M.Chooser(prefix=rp.get("choices") or []), eager=rp.get("eager", True), master_body=body)
             ctx.count()
             if out["error"] or out["deadlock"]:
